@@ -297,3 +297,17 @@ Theorem odes_loop_split : forall cmts eqs g0 ne0,
   fold_left (step_eq cmts eqs) (seq 0 (length eqs)) (g0, ne0)
   = (fold_left (gstep cmts eqs) (triples eqs) g0, fold_left (nstep eqs) (triples eqs) ne0).
 Proof. exact main_loop_split. Qed.
+
+(* Round 3 — the second loop invariant of to_compartmental_system, for systems of ANY size: for every
+   well-formed [linear_distinct] g and every compartment number a, what remains of equation a after the
+   term-matching loop (the [nstep] fold of odes_matching_loop) is duplicate-free and contains exactly the term of
+   the flow a -> output (if any) and the zero-order input term of a (if any): every +k*A_j of an inflow and every
+   -k*A_a of a flow to another compartment has been cancelled (rows are duplicate-free because rates are pairwise
+   distinct, so first-occurrence removal is a filter).  The final pass (these terms -> flow to output / set_input,
+   hence [same_flows g (rebuilt g)]) is still proved only for the systems of odes_roundtrip_partial. *)
+Theorem odes_rest_equations : forall g a,
+  WF g -> linear_distinct g = true -> a < length (order g) ->
+  let ne := fold_left (nstep (terms_of g)) (triples (terms_of g)) (terms_of g) in
+  length ne = length (order g) /\ NoDup (nth_leq ne a) /\
+  (forall x, In x (nth_leq ne a) <-> In x (out_term g a ++ input_terms g a)).
+Proof. exact rest_equations_lemma. Qed.
